@@ -612,14 +612,18 @@ fn mutated_frame(ext_flags: u8, opcode: u8, body: &[u8], comp: Comp) -> Arc<Vec<
     Arc::new(resp::frame(ext_flags, 1, opcode, body, comp, true))
 }
 
-fn deviation_cases(item: &Item, ext: &Ext, feat: u8, comp: Comp, pairs: bool, typed: bool, out: &mut Vec<Case>) {
+fn deviation_cases(item: &Item, ext: &Ext, feat: u8, comp: Comp, pairs: u8, typed: bool, out: &mut Vec<Case>) {
     let w = resp::encode_ext_body(ext, &item.resp, feat & FEAT_MID != 0);
     let opcode = item.resp.opcode();
     let base = |class: &'static str, site: String, origin: String, frame: Arc<Vec<u8>>| Case { frame: FrameSrc::Bytes(frame), comp: frames::comp_code(comp), feat, opts: if typed { decode::OPT_TYPED } else { 0 }, cached: None, expect: None, class, site, origin };
     // every truncation point of the frame as a byte stream (the connection ends early)
     let whole = mutated_frame(ext.flags(), opcode, &w.buf, comp);
     for cut in 0..whole.len() {
-        out.push(base("truncate-stream", "truncate-stream".into(), format!("{} cut at {cut}/{}", item.name, whole.len()), Arc::new(whole[..cut].to_vec())));
+        let mut c = base("truncate-stream", "truncate-stream".into(), format!("{} cut at {cut}/{}", item.name, whole.len()), Arc::new(whole[..cut].to_vec()));
+        if cut % 2 == 1 {
+            c.opts |= decode::OPT_CHUNKED; // short reads (3 bytes per poll, Pending in between) before the early EOF
+        }
+        out.push(c);
     }
     // every truncation point of the body with a consistent header (a peer that sends a short body)
     for cut in 0..w.buf.len() {
@@ -645,13 +649,16 @@ fn deviation_cases(item: &Item, ext: &Ext, feat: u8, comp: Comp, pairs: bool, ty
             out.push(base("field", f.site.to_string(), format!("{} {}: {cur:#x} -> {label} ({v:#x})", item.name, f.site), Arc::new(b)));
         }
     }
-    if pairs {
-        // 2 deviations: pairs of fields of the same frame region (same site prefix, or adjacent), reduced value alphabet
+    if pairs > 0 {
+        // 2 deviations: pairs of fields of the same frame region (same site prefix) or close to each other.
+        // level 1: reduced value alphabet, same region or adjacent, distance <= 6; level 2: full alphabet, same region at any distance or any two fields <= 12 apart
         let region = |f: &Field| f.site.split('.').next().unwrap_or("").to_string();
-        let small = |label: &str| matches!(label, "0" | "-1" | "+1" | "i32max" | "0xffff" | "flip" | "typeid");
+        let small = |label: &str| pairs >= 2 || matches!(label, "0" | "-1" | "+1" | "i32max" | "0xffff" | "flip" | "typeid");
+        let maxdist = 6;
         for (i, fa) in w.fields.iter().enumerate() {
             for (j, fb) in w.fields.iter().enumerate().skip(i + 1) {
-                if !(region(fa) == region(fb) || j == i + 1) || j - i > 6 {
+                let near = if pairs >= 2 { region(fa) == region(fb) || j - i <= 12 } else { (region(fa) == region(fb) || j == i + 1) && j - i <= maxdist };
+                if !near {
                     continue;
                 }
                 let ca = frames::read_field(&w.buf, fa);
@@ -663,6 +670,24 @@ fn deviation_cases(item: &Item, ext: &Ext, feat: u8, comp: Comp, pairs: bool, ty
                         frames::write_field(&mut b, fb, vb);
                         out.push(base("field2", format!("{}+{}", fa.site, fb.site), format!("{} fields #{i} {} -> {la}, #{j} {} -> {lb}", item.name, fa.site, fb.site), mutated_frame(ext.flags(), opcode, &b, comp)));
                     }
+                }
+            }
+        }
+        // 2 deviations: a field mutation plus a body truncation shortly after the field / shortly before the end
+        for (fi, f) in w.fields.iter().enumerate() {
+            let cur = frames::read_field(&w.buf, f);
+            for (v, label) in frames::mutation_values(f, cur).into_iter().filter(|(_, l)| small(l)) {
+                let mut b = w.buf.clone();
+                frames::write_field(&mut b, f, v);
+                let after = f.off + f.width as usize;
+                let mut cuts: BTreeSet<usize> = (after..(after + 6).min(b.len())).collect();
+                for k in 1..4 {
+                    if b.len() > after + k {
+                        cuts.insert(b.len() - k);
+                    }
+                }
+                for cut in cuts {
+                    out.push(base("field2", format!("{}+truncate", f.site), format!("{} field#{fi} {} -> {label}, body cut at {cut}/{}", item.name, f.site, b.len()), mutated_frame(ext.flags(), opcode, &b[..cut], comp)));
                 }
             }
         }
@@ -863,6 +888,7 @@ fn main() {
     #[derive(Clone, Copy)]
     enum Unit {
         Well(usize),
+        WellPairs(usize),
         Dev(usize),
         DevExt(usize),
         CompStream(usize),
@@ -873,6 +899,9 @@ fn main() {
     let mut units: Vec<Unit> = Vec::new();
     for i in 0..corpus.len() {
         units.push(Unit::Well(i));
+    }
+    for k in 0..16 {
+        units.push(Unit::WellPairs(k));
     }
     for i in 0..corpus.len() {
         units.push(Unit::Dev(i));
@@ -890,7 +919,7 @@ fn main() {
     }
     units.push(Unit::Nest);
     units.push(Unit::BadClass);
-    let n_random = if thorough { 1_000_000 } else { 100_000 };
+    let n_random = if thorough { 5_000_000 } else { 100_000 };
     for k in 0..(n_random / 10_000) {
         units.push(Unit::Random(k as u64));
     }
@@ -898,6 +927,7 @@ fn main() {
         let only = only.to_string();
         units.retain(|u| match u {
             Unit::Well(_) => only == "well",
+            Unit::WellPairs(_) => only == "wellpairs",
             Unit::Dev(_) => only == "dev",
             Unit::DevExt(_) => only == "devext",
             Unit::CompStream(_) => only == "compstream",
@@ -915,6 +945,7 @@ fn main() {
         let t_unit = std::time::Instant::now();
         let uname = match u {
             Unit::Well(_) => "well",
+            Unit::WellPairs(_) => "wellpairs",
             Unit::Dev(_) => "dev",
             Unit::DevExt(_) => "devext",
             Unit::CompStream(_) => "compstream",
@@ -937,19 +968,44 @@ fn main() {
             Unit::Dev(i) => {
                 let item = &corpus_ref[i];
                 let feat = item.needs;
-                deviation_cases(item, &exts_ref[0], feat, Comp::None, thorough, false, &mut cases);
+                let level = if thorough { 2 } else { 1 };
+                deviation_cases(item, &exts_ref[0], feat, Comp::None, level, false, &mut cases);
+                // the same single deviations decoded with every other feature negotiated and typed targets on
                 if thorough {
-                    deviation_cases(item, &exts_ref[0], 0x0f & !item.breaks_under, Comp::None, false, true, &mut cases);
+                    for f in [FEAT_MID, FEAT_RATE, FEAT_MID | FEAT_RATE, 0x0f, FEAT_LWT | FEAT_TABLETS] {
+                        if f != feat {
+                            deviation_cases(item, &exts_ref[0], f, Comp::None, 0, true, &mut cases);
+                        }
+                    }
+                } else if i % 2 == 0 {
+                    deviation_cases(item, &exts_ref[0], 0x0f & !item.breaks_under, Comp::None, 0, true, &mut cases);
+                }
+                if thorough {
+                    deviation_cases(item, &exts_ref[7], feat, Comp::None, 0, false, &mut cases);
                 }
             }
             Unit::DevExt(i) => {
                 let item = &corpus_ref[i];
                 // extension regions and compressed carriers
                 for e in [&exts_ref[7], &exts_ref[9]] {
-                    deviation_cases(item, e, item.needs, Comp::None, thorough, false, &mut cases);
+                    deviation_cases(item, e, item.needs, Comp::None, if thorough { 2 } else { 1 }, false, &mut cases);
                 }
-                deviation_cases(item, &exts_ref[2], item.needs, Comp::Lz4, false, false, &mut cases);
-                deviation_cases(item, &exts_ref[4], item.needs, Comp::Snappy, false, false, &mut cases);
+                deviation_cases(item, &exts_ref[2], item.needs, Comp::Lz4, 0, false, &mut cases);
+                deviation_cases(item, &exts_ref[4], item.needs, Comp::Snappy, 0, false, &mut cases);
+            }
+            Unit::WellPairs(k) => {
+                // two-column rows over all ordered pairs of the type alphabet (slice k of 16), typed targets on
+                let types = frames::type_alphabet();
+                let n = types.len();
+                for a in (k..n).step_by(16) {
+                    for b in 0..n {
+                        if !thorough && (a + b) % 3 != 0 {
+                            continue;
+                        }
+                        let item = frames::two_column_item(&types[a], &types[b], a, b);
+                        wellformed_cases(&item, &exts_ref[..1], &[0], &[(Comp::None, false), (Comp::Lz4, true)], true, 0, &mut cases);
+                    }
+                }
             }
             Unit::CompStream(i) => comp_stream_cases(&corpus_ref[i], corpus_ref[i].needs, &mut cases),
             Unit::Nest => nest_cases(thorough, &mut cases),
@@ -983,7 +1039,7 @@ fn main() {
     if unrep > 0 && r.args.extra_value("--only").is_none() {
         vcore::machinery_error(&format!("{unrep} fatal outcomes did not reproduce when the case was re-run alone"));
     }
-    r.set_rule("E-ENUM with deviation bounding. 0 deviations: corpus of well-formed frames of every response kind (ERROR all 19 codes with extras, READY, AUTHENTICATE, SUPPORTED, RESULT void/rows/set_keyspace/prepared/schema_change, EVENT all kinds, AUTH_CHALLENGE/SUCCESS; rows over a depth-2 type alphabet incl. class-string forms and vectors, every metadata flag combination, 0..2 rows, cached-metadata twin for no_metadata) x extension subsets x {none, LZ4, Snappy} x {matches, literal-only} x feature combinations (quick: 4; thorough: all 16), decoded through read_response_frame -> parse_response_body_extensions -> ResponseV2::deserialize (+ legacy Response for events) -> deserialize_metadata -> rows as raw cells, as Row/CqlValue and as every typed tuple of the target alphabet that passes type_check; decoded text must equal the text derived from the cqlref model. 1 deviation: every stream truncation, every body truncation with consistent header, every length/count/flag/id field x {0,1,-1,-2,+1,-1,0x7fff,0xffff,i32::MAX,i32::MIN, bit flips, all type ids / result kinds / opcodes / error codes}, header fields, damaged compressed streams (every cut, every byte x 4 values, announced length), bad class strings, type nesting 1e2..1e6 (binary) and 4..7000 (class strings). 2 deviations (thorough): same-region field pairs. Sampled (labelled): random bodies behind valid headers. Oracle per case in a child process: no panic/abort/signal/stack overflow (2 MiB thread)/more than 4 s of CPU time for one decode; largest single request and peak live bytes <= 64 KiB + 256 x frame length by a counting allocator that reports before the request is served and refuses > 64 MiB. distinct_nontrivial = round trips that matched + deviations rejected with a clean error.");
+    r.set_rule("E-ENUM with deviation bounding. 0 deviations: corpus of well-formed frames of every response kind (ERROR all 19 codes with extras, READY, AUTHENTICATE, SUPPORTED, RESULT void/rows/set_keyspace/prepared/schema_change, EVENT all kinds, AUTH_CHALLENGE/SUCCESS; rows over a depth-2 type alphabet incl. class-string forms and vectors, every metadata flag combination, 0..2 rows, cached-metadata twin for no_metadata) x extension subsets x {none, LZ4, Snappy} x {matches, literal-only} x feature combinations (quick: 4; thorough: all 16), decoded through read_response_frame -> parse_response_body_extensions -> ResponseV2::deserialize (+ legacy Response for events) -> deserialize_metadata -> rows as raw cells, as Row/CqlValue and as every typed tuple of the target alphabet that passes type_check; decoded text must equal the text derived from the cqlref model. 1 deviation: every stream truncation, every body truncation with consistent header, every length/count/flag/id field x {0,1,-1,-2,+1,-1,0x7fff,0xffff,i32::MAX,i32::MIN, bit flips, all type ids / result kinds / opcodes / error codes}, header fields, damaged compressed streams (every cut, every byte x 4 values, announced length), bad class strings, type nesting 1e2..1e6 (binary) and 4..7000 (class strings). 2 deviations: field pairs (quick: same region or adjacent, reduced value alphabet; thorough: same region at any distance or any two fields <= 12 apart, full alphabet) and field mutation + body truncation right after the field / right before the end; thorough also repeats the single deviations under 6 feature sets with typed targets. Two-column rows over ordered pairs of the type alphabet (quick: a third; thorough: all). Sampled (labelled): random bodies behind valid headers. Oracle per case in a child process: no panic/abort/signal/stack overflow (2 MiB thread)/more than 4 s of CPU time for one decode; largest single request and peak live bytes <= 64 KiB + 256 x frame length by a counting allocator that reports before the request is served and refuses > 64 MiB. distinct_nontrivial = round trips that matched + deviations rejected with a clean error.");
     r.set_exhaustive(true);
     r.assume("row iteration is consumer-driven: the harness pulls at most 4096 rows per iterator and stops at the first error; every step is checked");
     r.assume("the decode runs on a 2 MiB thread (tokio worker default), RLIMIT_AS 2 GiB protects the checker only; verdicts come from the counting allocator");
